@@ -91,6 +91,16 @@ Section Det.
   Lemma D_finals T : In T (e_finals D) <-> In T (e_states D) /\ is_final_set A T = true.
   Proof. destruct D_shape as [sts [R ->]]. cbn [e_finals e_states]. apply filter_In. Qed.
 
+  Theorem determinize_wf : wf D.
+  Proof.
+    split; [|split; [|split]].
+    - intros S l T Hd. apply D_edge in Hd. destruct Hd as [a [-> [HS [Ha HT]]]]. split; [exact HS|eapply D_closed; eauto].
+    - intros S a T Hd. apply D_edge in Hd. destruct Hd as [a' [E [_ [Ha _]]]]. inversion E; subst.
+      destruct D_shape as [sts [_ ->]]. exact Ha.
+    - intros S HS. rewrite D_starts in HS. destruct HS as [<-|[]]. exact D_start_state.
+    - intros T HT. now apply D_finals in HT.
+  Qed.
+
   Theorem determinize_is_dfa : is_dfa D.
   Proof.
     split; [exact D_eps_free|split; [exact D_functional|]].
